@@ -45,6 +45,21 @@ pub fn gen(seed: u64, tier: Tier) -> ScenarioSpec {
         rec.metadata = Some(gen::gen_big_tree(&mut rng, n));
     }
     rec.gecko = None;
+    // the raw element may go on after Game End (events a newer recorder appends there, declared in the
+    // payload table): the reader has to be past all of them before it looks for the metadata element
+    if rec.end != EndKind::None && rng.chance(1, 8) {
+        let mut us = super::c17::gen_unknown(&mut rng, super::c17::events_hint(&rec), 2);
+        us.truncate(1);
+        if let Some(u) = us.first_mut() {
+            rec.end = EndKind::Single;
+            u.split = false;
+            u.after = vec![1_000_000; 1 + rng.usize_below(3)];
+            if rng.chance(1, 2) {
+                u.size = *rng.pick(&[1u16, 2, 6]);
+            }
+        }
+        rec.extras.unknown = us;
+    }
     let len = gen::approx_len(&rec) + 3000;
     let mut spec = gen::base_spec(P, "S1", seed, rec);
     spec.stream = gen::gen_stream(&mut rng, len, true);
@@ -57,7 +72,8 @@ pub fn gen(seed: u64, tier: Tier) -> ScenarioSpec {
     spec.compression = *rng.pick(&[Compression::None, Compression::Lz4, Compression::Zstd]);
     // the tree does not depend on how the file is read
     spec.opts.compute_hash = rng.chance(1, 3);
-    spec.opts.skip_frames = spec.recorder.end != EndKind::None && rng.chance(1, 4);
+    // (the skip-frames option presumes that Game End is the last event of the raw element — C10's premise)
+    spec.opts.skip_frames = spec.recorder.end != EndKind::None && spec.recorder.extras.unknown.is_empty() && rng.chance(1, 4);
     spec.knobs.insert("prelude".into(), gen_prelude(&mut rng, &[1, 2, 3, 5], 5));
     spec
 }
@@ -128,6 +144,7 @@ pub fn run(spec: &ScenarioSpec, ctx: &mut Ctx) -> Result<(), Violation> {
         let Some(g) = s1_read(P, spec, &m, ctx, spec.opts != OptsSpec::default())? else { return Ok(()) };
         g
     };
+    ctx.probe_if(!spec.recorder.extras.unknown.is_empty(), "unknown events after Game End, inside the raw element, before the metadata");
     // 1. parsed tree == model tree, order included
     let got = json_of(&game.metadata);
     if got != want {
